@@ -12,7 +12,9 @@ def budget(tier: str) -> dict:
 
 
 def generate(seed: int, tier: str, index: int) -> dict:
-    return mc.generate_live(ID, seed, tier, index, richness=0.8, seg_cap=50, wakeups=(1, 3), forge_p=0.4)
+    spec = mc.generate_live(ID, seed, tier, index, richness=0.8, seg_cap=50, wakeups=(1, 3), forge_p=0.4)
+    mc.add_static_sessions(spec, seed, media=True)      # the same rewriting code serves static presentations
+    return spec
 
 
 def execute(spec: dict) -> dict:
